@@ -90,10 +90,10 @@ func (srv *Server) Characteristics(w http.ResponseWriter, r *http.Request) {
 		if err == true {
 			// Set 207 status when any of the response includes an error
 			w.WriteHeader(http.StatusMultiStatus)
-			for _, resp := range arr {
-				if resp.Status == nil {
+			for i := range arr {
+				if arr[i].Status == nil {
 					ok := 0
-					resp.Status = &ok // make sure that every response contains a status code (0 means OK)
+					arr[i].Status = &ok // make sure that every response contains a status code (0 means OK)
 				}
 			}
 		} else {
